@@ -123,6 +123,10 @@ func Groups() []*Group {
 	}
 	rec := alt.MustNewRecomposer("^", map[any]alt.RecomposeFunc{&Inner{}: nil, &Outer{}: nil, &Other{}: nil, &Holder{}: nil})
 	locExpr := jp.MustParseString("$.a[?(@.x > $.a[0].x)].y")
+	// a script whose list operand holds Go ints and a float32 (built with the
+	// constructors): evaluation has to leave the shared list as it is
+	listScript := jp.In(jp.Get(jp.A().C("x")), jp.ConstList([]any{1, 2, float32(2.5), "s"})).Script()
+	listExpr := jp.R().C("a").Filter(jp.In(jp.Get(jp.A().C("x")), jp.ConstList([]any{3, int8(1)})))
 	_, _ = alt.Recompose(map[string]any{"x": 1}, &Inner{}) // warm the default recomposer with the types used below
 	_, _ = alt.Recompose(map[string]any{"a": 1.5}, &Other{})
 	return []*Group{
@@ -178,6 +182,11 @@ func Groups() []*Group {
 				err := oj.Unmarshal([]byte(`{"x":5,"y":"five"}`), &in)
 				return fmt.Sprintf("%+v / %s", in, errText(err)), nil
 			}},
+			{"oj.Unmarshal(malformed)", func() (string, []byte) {
+				var in Inner
+				err := oj.Unmarshal([]byte(`{"x":5,"y":`), &in)
+				return fmt.Sprintf("%+v / %s", in, errText(err)), nil
+			}},
 			{"oj.Validate", func() (string, []byte) { return errText(oj.Validate([]byte(`[1,{"a":2}]`))), nil }},
 			{"oj.Tokenize", func() (string, []byte) {
 				r := &mach.Rec{}
@@ -230,6 +239,11 @@ func Groups() []*Group {
 			{"sen.ParseReader(array)", func() (string, []byte) {
 				v, err := sen.ParseReader(strings.NewReader(`[1 2 {x:y}]`))
 				return mach.Canon(v) + " / " + errText(err), nil
+			}},
+			{"sen.Unmarshal(malformed)", func() (string, []byte) {
+				var in Inner
+				err := sen.Unmarshal([]byte(`{x:5 y:`), &in)
+				return fmt.Sprintf("%+v / %s", in, errText(err)), nil
 			}},
 			{"sen.Unmarshal(*Inner)", func() (string, []byte) {
 				var in Inner
@@ -306,9 +320,13 @@ func Groups() []*Group {
 				r, err := sharedExpr.Modify(data(), func(any) (any, bool) { return "m", true })
 				return mach.Canon(r) + " / " + errText(err), nil
 			}},
+			{"Script.Match(list)", func() (string, []byte) {
+				return fmt.Sprint(listScript.Match(map[string]any{"x": int64(2)}), listScript.Match(map[string]any{"x": 2.5}), listScript.Match(map[string]any{"x": "q"})), nil
+			}},
+			{"Expr.Get(list filter)", func() (string, []byte) { return mach.Canon(listExpr.Get(data())), nil }},
 			{"Expr.GetLoc", func() (string, []byte) { return mach.Canon(locExpr.Get(data())) + fmt.Sprint(locExpr.Has(data())), nil }},
 		}, Snapshot: func() string {
-			return snap.Dump(sharedExpr) + snap.Dump(sharedScript) + snap.Dump(sharedFilter) + snap.Dump(wild) + snap.Dump(locExpr)
+			return snap.Dump(sharedExpr) + snap.Dump(sharedScript) + snap.Dump(sharedFilter) + snap.Dump(wild) + snap.Dump(locExpr) + snap.Dump(listScript) + snap.Dump(listExpr)
 		}},
 	}
 }
